@@ -402,7 +402,21 @@ func (k Keeper) UpdateLockedBorrows(ctx sdk.Context, borrow lendtypes.BorrowAsse
 	k.lend.UpdateBorrowStats(ctx, lendPair, borrow.IsStableBorrow, borrow.AmountOut.Amount, false)
 	lendPos.AmountIn.Amount = lendPos.AmountIn.Amount.Sub(borrow.AmountIn.Amount)
 	k.lend.UpdateLendStats(ctx, lendPos.AssetID, lendPos.PoolID, borrow.AmountIn.Amount, false)
-	if !lendPos.AmountIn.Amount.GT(sdk.ZeroInt()) {
+	// the position may only go when nothing is left on it: AmountIn does not include credited lend rewards (they
+	// only raise AvailableToBorrow), and other borrows can still be pledged against the same position
+	otherBorrows := false
+	borrowIDs, _ := k.lend.GetBorrows(ctx)
+	for _, id := range borrowIDs {
+		other, found := k.lend.GetBorrow(ctx, id)
+		if found && id != borrow.ID && other.LendingID == lendPos.ID && !other.IsLiquidated {
+			otherBorrows = true
+			break
+		}
+	}
+	if lendPos.AmountIn.Amount.IsNegative() {
+		lendPos.AmountIn.Amount = sdk.ZeroInt()
+	}
+	if !lendPos.AmountIn.Amount.GT(sdk.ZeroInt()) && !lendPos.AvailableToBorrow.IsPositive() && !otherBorrows {
 		// delete lend position
 		k.lend.DeleteLendForAddressByAsset(ctx, lendPos.Owner, lendPos.ID)
 		k.lend.DeleteIDFromAssetStatsMapping(ctx, lendPos.PoolID, lendPos.AssetID, borrow.LendingID, true)
